@@ -42,7 +42,7 @@ func init() {
 			if a.Evals < 100000 || a.SetSize("types") < 20 || a.Counters["accepted_variants"] < 1000 || a.Counters["rejected_variants"] < 1000 {
 				return fmt.Errorf("too little observed: evals=%d types=%d accepted=%d rejected=%d", a.Evals, a.SetSize("types"), a.Counters["accepted_variants"], a.Counters["rejected_variants"])
 			}
-			return nil
+			return needKinds(a, "base_kinds", "switch", "ctrl")
 		},
 		Assumptions: []string{
 			"budgets: 4 CPU-seconds (process CPU time, not wall clock) and 4 MiB + 1024 bytes per input byte of cumulative allocation per call; a slower-than-linear decoder inside these budgets is not detected",
@@ -56,12 +56,13 @@ func c07Gen(tier string, seed uint64, i int) any {
 		return &c07Case{Mode: "tiny", Side: fmt.Sprint(i / 97)}
 	}
 	if i%13 == 5 { // hostile frames through a real MessageStream: a crash or a wedge there takes the controller down
-		return &c07Case{Mode: "stream", Side: "switch", Recipe: switchRecipe(7, seed, i)}
+		return &c07Case{Mode: "stream", Side: "switch", Recipe: switchRecipe(77, seed, i/13)}
 	}
+	// the recipe index is i/2 so that the side (parity of i) does not select the message kinds (index modulo a list length)
 	if i%2 == 0 {
-		return &c07Case{Mode: "base", Side: "switch", Recipe: switchRecipe(7, seed, i)}
+		return &c07Case{Mode: "base", Side: "switch", Recipe: switchRecipe(7, seed, i/2)}
 	}
-	return &c07Case{Mode: "base", Side: "ctrl", Recipe: withBundleProps(prng.Derive(seed, 70, uint64(i)), ctrlRecipe(7, tier, seed, i))}
+	return &c07Case{Mode: "base", Side: "ctrl", Recipe: withBundleProps(prng.Derive(seed, 70, uint64(i)), ctrlRecipe(7, tier, seed, i/2))}
 }
 
 func ofFix(b []byte) {
